@@ -309,7 +309,7 @@ def engine_agreement(ctx, rep):
         missing = []
         bodies = [b for c in m['crates'].values() for b in c['bodies']]
         for b in bodies:
-            if b['kind'] in ('closure', 'promoted') or b.get('derived') or not str(b.get('file', '')).endswith('.rs') or str(b['file']).startswith('/'):
+            if b['kind'] in ('closure', 'promoted', 'const') or b.get('derived') or not str(b.get('file', '')).endswith('.rs') or str(b['file']).startswith('/'):
                 continue
             if b.get('exp'):
                 gen += 1
